@@ -47,6 +47,9 @@ impl Exec {
         let drops_before = self.drops_seen[ai];
         let frame = self.frame_snapshot(a);
         let pace_entry = self.pace_enter(a, op, before, debt_before, count_before);
+        if before != Ph::Sweeping {
+            self.mon[ai].sweep_born.clear();
+        }
 
         // C07 bookkeeping on entry
         if before == Ph::Sleeping {
@@ -138,6 +141,24 @@ impl Exec {
         }
 
         self.drain_events(a);
+        // C08: a call entered while Sweeping that may not start a new cycle (cycle_debt,
+        // finish_cycle) cannot release objects allocated during that very sweep (the running sweep
+        // does not visit them): if it does, it passed from Sweeping into a new Marking
+        if before == Ph::Sweeping && matches!(op, COp::CycleDebt | COp::Step | COp::FinishCycle) && ret != Ret::Unwound {
+            self.stats.inc("sweep_crossing_checks");
+            let crossed: Vec<Id> = self.last_gone.iter().filter(|i| self.mon[ai].sweep_born.contains(i)).copied().collect();
+            if let Some(i) = crossed.first() {
+                self.viol("C08", "M-phase", format!("{:?} entered while Sweeping released object {} that was allocated during that sweep: the call went through Sleeping into a new cycle", op, i));
+            }
+        }
+        // likewise a debt-driven cycle call that swept something cannot end up marking again
+        if matches!(op, COp::CycleDebt | COp::Step) && ret != Ret::Unwound && before != Ph::Sleeping && matches!(after, Ph::Marking | Ph::Marked) && !self.last_gone.is_empty() {
+            self.viol("C08", "M-phase", format!("{:?} entered in {:?} released objects and returned in {:?}: it passed from Sweeping into a new Marking within one call", op, before, after));
+        }
+        if after != Ph::Sweeping || may_cross {
+            // (a collect_debt entered mid-cycle may be in the NEXT cycle's sweep by now)
+            self.mon[ai].sweep_born.clear();
+        }
         self.pace_exit(a, op, pace_entry, after, ret == Ret::Unwound);
         if ret != Ret::Unwound {
             self.check_phase_contract(a, op, before, after, ret, debt_before, debt_after, count_before, drops_before);
@@ -335,7 +356,7 @@ impl Exec {
             }
             if wt.contains_key(&id) {
                 expect_blocks += 1;
-            } else {
+            } else if track::enabled() {
                 msgs.push((
                     "C02",
                     format!("allocation of unreachable object {} ({}) still held after two finish_cycle calls and no reachable weak pointer refers to it", id, o.kind.name()),
